@@ -214,12 +214,14 @@ class MinGenSet():
                     )
             else:  
                 for i in range(k):
+                    # the helper sizes the bit vector of the integer factor from `ub`: make it large enough
+                    # for max_multiplicity (gen_set <= total <= ub keeps the product rows valid)
                     self.solver.add_integer_continuous_product_constraint(
                             integer_var=self.x_vars[(i, j)],
                             continuous_var=self.genset_vars[(i)],
                             product_var=self.pi_vars[(i, j)],
                             lb=0,
-                            ub=self.total,
+                            ub=max(self.total, self.max_multiplicity),
                             name=f"pi_i={i}_j={j}",
                         )
 
